@@ -41,11 +41,41 @@ theorem conn_eq_iff (x y : Connection) : x = y ↔
 instance (priority := high) fastConnEq : DecidableEq Connection :=
   fun x y => decidable_of_iff _ (conn_eq_iff x y).symm
 
-end NS.Ex
-deriving instance DecidableEq for NetcodeServer
-deriving instance DecidableEq for NetcodeClient
-namespace NS.Ex
-open RenetVerif
+theorem server_eq_iff (x y : NetcodeServer) : x = y ↔
+    x.clients = y.clients ∧ x.pendingClients = y.pendingClients ∧ x.connectTokenEntries = y.connectTokenEntries ∧
+    x.protocolId = y.protocolId ∧ x.connectKey = y.connectKey ∧ x.maxClients = y.maxClients ∧
+    x.challengeSequence = y.challengeSequence ∧ x.challengeKey = y.challengeKey ∧
+    x.publicAddresses = y.publicAddresses ∧ x.currentTime = y.currentTime ∧ x.globalSequence = y.globalSequence ∧
+    x.secure = y.secure := by
+  constructor
+  · rintro rfl; simp
+  · intro h
+    cases x; cases y
+    simp only at h
+    obtain ⟨rfl, rfl, rfl, rfl, rfl, rfl, rfl, rfl, rfl, rfl, rfl, rfl⟩ := h
+    rfl
+
+/-- (named, in this namespace: a `deriving instance` here could clash with one in another file) -/
+instance serverEq : DecidableEq NetcodeServer := fun x y => decidable_of_iff _ (server_eq_iff x y).symm
+
+theorem client_eq_iff (x y : NetcodeClient) : x = y ↔
+    x.state = y.state ∧ x.clientId = y.clientId ∧ x.connectStartTime = y.connectStartTime ∧
+    x.lastPacketSendTime = y.lastPacketSendTime ∧ x.lastPacketReceivedTime = y.lastPacketReceivedTime ∧
+    x.currentTime = y.currentTime ∧ x.sequence = y.sequence ∧ x.serverAddr = y.serverAddr ∧
+    x.serverAddrIndex = y.serverAddrIndex ∧ x.connectToken = y.connectToken ∧
+    x.challengeTokenSequence = y.challengeTokenSequence ∧ x.challengeTokenData = y.challengeTokenData ∧
+    x.maxClients = y.maxClients ∧ x.clientIndex = y.clientIndex ∧ x.sendRate = y.sendRate ∧
+    x.replayProtection = y.replayProtection := by
+  constructor
+  · rintro rfl; simp
+  · intro h
+    cases x; cases y
+    simp only at h
+    obtain ⟨rfl, rfl, rfl, rfl, rfl, rfl, rfl, rfl, rfl, rfl, rfl, rfl, rfl, rfl, rfl, rfl⟩ := h
+    rfl
+
+instance clientEq : DecidableEq NetcodeClient := fun x y => decidable_of_iff _ (client_eq_iff x y).symm
+
 
 /-- The toy AEAD of the model (identity cipher) with one change: the last tag byte of the 24-byte-nonce variant is
     the first nonce byte, so that two connect tokens (different xnonces) have different MACs.  (With a constant tag
@@ -269,6 +299,74 @@ def forgedKa : Bytes := 20 :: 3 :: (leBytes 0 4 ++ leBytes 0 4 ++ List.replicate
 def srv2 : Addr := .v4 [127, 0, 0, 2] 5001
 def cF : NetcodeClient :=
   { cA0 with connectToken := { tokenA with serverAddresses := some srvAddr :: some srv2 :: List.replicate 30 none } }
+
+/-! ### runs with their event logs; a second session of A; payloads; a full token-entry table -/
+
+/-- run a list of operations, collecting the events -/
+def runLog (s : NetcodeServer) : List Op → Option (NetcodeServer × List Event)
+  | [] => some (s, [])
+  | op :: rest => match step a s op with
+    | some (r, s') => (runLog s' rest).map fun x => (x.1, eventOf r ++ x.2)
+    | none => none
+
+theorem reach_runLog : ∀ (ops : List Op) {s s' : NetcodeServer} {log evs : List Event}, Reach a s log →
+    runLog s ops = some (s', evs) → Reach a s' (log ++ evs)
+  | [], s, s', log, evs, hr, h => by
+    simp only [runLog, Option.some.injEq, Prod.mk.injEq] at h
+    obtain ⟨rfl, rfl⟩ := h
+    simpa using hr
+  | op :: rest, s, s', log, evs, hr, h => by
+    simp only [runLog] at h
+    cases hs : step a s op with
+    | none => rw [hs] at h; cases h
+    | some x =>
+      obtain ⟨r, s1⟩ := x
+      rw [hs] at h
+      simp only [Option.map_eq_some_iff, Prod.mk.injEq] at h
+      obtain ⟨⟨s2, evs2⟩, h2, rfl, rfl⟩ := h
+      have := reach_runLog rest (.step hr hs) h2
+      simpa [List.append_assoc] using this
+
+/-- A disconnects (server side), connects again with the same token from the same address, and is disconnected again;
+    the second response echoes challenge sequence 2 -/
+def respA2 : Bytes := 19 :: 1 :: (leBytes 2 8 ++ chalTokA ++ List.replicate 16 0)
+def againOps : List Op := [.disconnect 11, .packet addrA reqA, .packet addrA respA2, .disconnect 11]
+theorem again_events : (runLog s2 againOps).map (·.2) =
+    some [.disconnected 11 addrA, .connected 11 addrA udA, .disconnected 11 addrA] := by decide +kernel
+
+/-- a payload datagram from A (sequence 2), and the server's view of it -/
+def payFromA : Bytes := 21 :: 2 :: ([1, 2, 3] ++ List.replicate 16 0)
+theorem s_payload : s2.processPacket a addrA payFromA = .ok (.payload 11 [1, 2, 3], s2k) := by decide +kernel
+/-- a payload for A -/
+def payToA : Bytes := 21 :: 1 :: ([9, 9] ++ List.replicate 16 0)
+theorem s_sendPayload : s2.generatePayloadPacket a 11 [9, 9] =
+    .ok ((addrA, payToA), { s2 with clients := [some (sentKeepAlive connA 0), none] }) := by decide +kernel
+
+/-- a server without sessions whose (3-entry) token table is full -/
+def e1 : ConnectTokenEntry := ⟨1, addrA, macA⟩
+def e2 : ConnectTokenEntry := ⟨2, addrB, macB⟩
+def e3 : ConnectTokenEntry := ⟨3, addrB, List.replicate 15 0 ++ [25]⟩
+def sFull : NetcodeServer := { s0 with connectTokenEntries := [some e1, some e2, some e3], currentTime := 4 }
+
+theorem sFull_inv : ServerInv sFull := by
+  have h0 := s0_empty.inv
+  obtain ⟨h1, h2, h3, h4, h5, _, _, h8, h9⟩ := h0
+  refine ⟨h1, ?_, ?_, h4, h5, by decide, ?_, h8, h9⟩
+  · intro i c hc; exact (h2 i c hc).mono (by decide)
+  · intro p hp; cases hp
+  · intro i j ei ej hi hj he
+    have hi' : i < 3 := (List.getElem?_eq_some_iff.mp hi).1
+    have hj' : j < 3 := (List.getElem?_eq_some_iff.mp hj).1
+    match i, j, hi', hj' with
+    | 0, 0, _, _ => rfl
+    | 1, 1, _, _ => rfl
+    | 2, 2, _, _ => rfl
+    | 0, 1, _, _ => simp [sFull] at hi hj; subst hi hj; exact absurd he (by decide)
+    | 0, 2, _, _ => simp [sFull] at hi hj; subst hi hj; exact absurd he (by decide)
+    | 1, 0, _, _ => simp [sFull] at hi hj; subst hi hj; exact absurd he (by decide)
+    | 1, 2, _, _ => simp [sFull] at hi hj; subst hi hj; exact absurd he (by decide)
+    | 2, 0, _, _ => simp [sFull] at hi hj; subst hi hj; exact absurd he (by decide)
+    | 2, 1, _, _ => simp [sFull] at hi hj; subst hi hj; exact absurd he (by decide)
 
 end NS.Ex
 end RenetVerif.Netcode
